@@ -67,6 +67,24 @@ def orderedBy (before : α → α → Bool) : List α → Bool
   | [] => true
   | x :: rest => rest.all (fun y => !before y x) && orderedBy before rest
 
+/-- The comparisons `orderedBy` looks at, in its order: for every position, `before y x` for
+    each later `y`.  The harness prints this table computed with the C++ operators themselves, so
+    the S3 oracle judges a Sort result by the implementation's own relation. -/
+def pairsTable (before : α → α → Bool) : List α → List Bool
+  | [] => []
+  | x :: rest => rest.map (fun y => before y x) ++ pairsTable before rest
+
+/-- No entry of the table says "a later element goes before an earlier one". -/
+def tableOrdered (bits : List Bool) : Bool := bits.all (fun b => !b)
+
+/-- Second table: `le x y` for every earlier `x` and later `y` (`<=` ascending, `>=` descending). -/
+def chainTable (le : α → α → Bool) : List α → List Bool
+  | [] => []
+  | x :: rest => rest.map (fun y => le x y) ++ chainTable le rest
+
+/-- Every earlier element is `<=` (`>=`) every later one. -/
+def tableChain (bits : List Bool) : Bool := bits.all (fun b => b)
+
 /-- `out` is a rearrangement of `inp`: every element occurs equally often (decidable form of
     `List.Perm`, see `Proofs/Sort.lean`). -/
 def isPermOf [BEq α] (out inp : List α) : Bool :=
